@@ -53,22 +53,6 @@ def signature(c, f):
     if c["fam"] == "opes" and f["sig"].startswith("run-boundary:"):
         # no state file involved: the restart schedule does not matter
         return "run-boundary:opes:" + f["sig"].split(":")[-1]
-    if c["fam"] == "opes":
-        # the OPES state is the snapshot taken at the last step on the restart schedule: only stops on that
-        # schedule (and after the first step of the run) can resume exactly
-        K, rf = f.get("K"), c.get("restartfreq", 1)
-        if K is None or K == 0 or K % rf != 0:
-            st.append("off-schedule")
-            col = "all"
-        else:
-            col = "all" if st else None
-    if c["fam"] == "mts" and c.get("mts_extended") and f.get("K") is not None:
-        # an extended-Lagrangian variable with timeStepFactor n in a job that starts between two multiples of n:
-        # a state written before the variable was first computed holds an extended coordinate that was never set
-        sf, it0 = c["sleep_factor"], c.get("it0", 0)
-        if all((it0 + j) % sf != 0 for j in range(f["K"] + 1)):
-            st.append("extended+saved-before-first-update")
-            col = "all"
     fam = c["fam"] + ("".join("+" + t for t in st))
     parts = f["sig"].split(":")          # engine signatures are <kind>:<fam>:<rest...>
     if col == "all":
@@ -101,8 +85,7 @@ def gen_cases(r, quick, only=None):
             c["buffer_Ks"] = [(K, r2.choice(c["fmts"])) for K in r2.sample(c["Ks"], 2)]
             # a job resumed twice; not for the objects whose single resume is a recorded finding
             ch = set()
-            if not (fam in ("alb", "opes", "pabf", "runave") or c.get("sigtags") or c.get("collapse")
-                    or (fam == "mts" and c.get("it0", 0) % c["sleep_factor"] != 0)):
+            if not (fam in ("pabf", "runave") or c.get("sigtags") or c.get("collapse")):
                 for _ in range(2):
                     K1 = r2.randrange(0, T - 1)
                     ch.add((K1, r2.randrange(K1 + 1, T) if r2.random() < 0.8 else K1, r2.choice(c["fmts"])))
